@@ -22,6 +22,8 @@ func tinyPrograms() []*Spec {
 	out = append(out, one("incr-abort", "none", incr, []Op{{K: "abort", B: 0}}))
 	out = append(out, one("incr-abortdrop", "none", incr, []Op{{K: "abort", B: 0, F: true}}))
 	out = append(out, one("incr-cancel", "none", incr, []Op{{K: "cancel"}}))
+	out = append(out, one("shutdown", "none", []Op{{K: "shutdown"}}))
+	// (incr-shutdown is kept for experiments; it needs more than 10^7 executions and is not registered)
 	out = append(out, one("incr-shutdown", "none", incr, []Op{{K: "shutdown"}}))
 	out = append(out, one("incr-write", "none", incr, []Op{{K: "write", S: "x\n"}}))
 	out = append(out, one("incr-getters", "none", incr, []Op{{K: "comp", B: 0}, {K: "abrt", B: 0}}))
